@@ -185,6 +185,38 @@ def possible_combos(fm, sem, crossing):
             for f, l in zip(cross_f, combo):
                 w *= dict((a, b) for a, b in f['levels'])[l]
             out.append((combo, w))
+        elif not any((f['name'], l) in excl for f, l in zip(cross_f, combo)):
+            # A14: the combination is impossible only JOINTLY (each crossed derived level is producible on its own, but no single
+            # choice of the other factors produces them together). The documentation speaks of combinations excluded "by the
+            # definition of its levels" of *a* derived factor and the library only warns that "dependencies among factors may make
+            # the crossing unsatisfiable"; whether the crossing shrinks is not determined.
+            crossed_wt = [df for df in wt_derived if df['name'] in fixed]
+            each_ok = True
+            for df in crossed_wt:
+                one = False
+                for vals in itertools.product(*[level_names(f) for f in basics]):
+                    tr = {f['name']: v for f, v in zip(basics, vals)}
+                    if any(tr[n] != fixed[n] for n in tr if n in fixed):
+                        continue
+                    if any((n, v) in excl for n, v in tr.items()):
+                        continue
+                    good = True
+                    for d2 in wt_derived:
+                        if not all(d in tr for d in d2['deps']):
+                            continue
+                        lv = derive_within(fm, d2, tr)
+                        if len(lv) != 1:
+                            good = False
+                            break
+                        tr[d2['name']] = lv[0]
+                    if good and tr.get(df['name']) == fixed[df['name']]:
+                        one = True
+                        break
+                if not one:
+                    each_ok = False
+                    break
+            if each_ok and len(crossed_wt) >= 2:
+                raise RefUnsupported('A14: crossing combination impossible only jointly')
     return out
 
 
@@ -290,7 +322,9 @@ def finalize(fm, sem, top_mode, keep_scale, opts):
         for cx in sem.cxs:
             cx.start = P
     else:
-        need = max([1] + [(cx.preamble + cx.size * (cx.scale if keep_scale else 1)) * cx.sustain for cx in sem.cxs])
+        # (a crossing taken over from a block whose own trial count cut its last scaled pass short keeps that span)
+        need = max([1] + [(cx.preamble + (cx.span if (keep_scale and getattr(cx, 'span', None)) else cx.size * (cx.scale if keep_scale else 1)))
+                          * cx.sustain for cx in sem.cxs])
         for cx in sem.cxs:
             cx.start = cx.preamble * cx.sustain
     sem.T = max(mt, need)
@@ -362,7 +396,12 @@ def nest_sems(fm, outer, inner, constraints, alignment, opts):
         if n not in sem.design:
             sem.design.append(n)
     for cx in outer.cxs:
-        sem.cxs.append(Cx(cx.factors, cx.preamble, cx.sustain * L, cx.scale))
+        ncx = Cx(cx.factors, cx.preamble, cx.sustain * L, cx.scale)
+        # "once for each combination described by outer_block": the outer block's own trial count (its MinimumTrials may have
+        # left its last scaled pass partial) fixes how many groups there are
+        if len(outer.cxs) == 1 and outer.alignment != 'post preamble':
+            ncx.span = outer.T // cx.sustain - cx.preamble
+        sem.cxs.append(ncx)
     for cx in inner.cxs:
         sem.cxs.append(Cx(cx.factors, cx.preamble, cx.sustain, cx.scale))
     sem.min_trials = max(outer.min_trials * L, inner.min_trials)
